@@ -34,7 +34,7 @@ type Driver struct {
 
 	mu      sync.Mutex
 	policy  string
-	invoked string // "<kind> <fields>" of the last non-sentinel handler invocation
+	invoked []string // "<kind> <fields>" of every non-sentinel handler invocation since the last setPolicy
 	seq     uint32
 }
 
@@ -115,9 +115,9 @@ func (d *Driver) installHandlers() {
 		if req.Username == sentinelUser {
 			return &radius.CoAResponse{Success: false}
 		}
-		d.invoked = fmt.Sprintf("coa u=%s;n=%s;f=%s;c=%s;s=%s;st=%d;it=%d;fi=%s", hx([]byte(req.Username)),
+		d.invoked = append(d.invoked, fmt.Sprintf("coa u=%s;n=%s;f=%s;c=%s;s=%s;st=%d;it=%d;fi=%s", hx([]byte(req.Username)),
 			hx(ipBytes(req.NASIPAddress)), hx(ipBytes(req.FramedIP)), hx([]byte(req.CallingStation)),
-			hx([]byte(req.SessionID)), req.SessionTimeout, req.IdleTimeout, hx([]byte(req.FilterID)))
+			hx([]byte(req.SessionID)), req.SessionTimeout, req.IdleTimeout, hx([]byte(req.FilterID))))
 		ok, ec, msg := d.reply()
 		return &radius.CoAResponse{Success: ok, ErrorCause: ec, Message: msg}
 	})
@@ -127,9 +127,9 @@ func (d *Driver) installHandlers() {
 		if req.Username == sentinelUser {
 			return &radius.DisconnectResponse{Success: false}
 		}
-		d.invoked = fmt.Sprintf("dm u=%s;n=%s;f=%s;c=%s;s=%s;st=0;it=0;fi=-", hx([]byte(req.Username)),
+		d.invoked = append(d.invoked, fmt.Sprintf("dm u=%s;n=%s;f=%s;c=%s;s=%s;st=0;it=0;fi=-", hx([]byte(req.Username)),
 			hx(ipBytes(req.NASIPAddress)), hx(ipBytes(req.FramedIP)), hx([]byte(req.CallingStation)),
-			hx([]byte(req.SessionID)))
+			hx([]byte(req.SessionID))))
 		ok, ec, msg := d.reply()
 		return &radius.DisconnectResponse{Success: ok, ErrorCause: ec, Message: msg}
 	})
@@ -139,7 +139,7 @@ func (d *Driver) setPolicy(p string) {
 	d.mu.Lock()
 	changed := (d.policy == "def") != (p == "def")
 	d.policy = p
-	d.invoked = ""
+	d.invoked = nil
 	d.mu.Unlock()
 	if changed {
 		if p == "def" {
@@ -183,17 +183,45 @@ func (d *Driver) isReplyTo(resp, reqAuth []byte) bool {
 //
 //	drop | act <coa|dm> <fields|-> <response hex|-> | panic <msg> | hang
 func (d *Driver) Send(policy string, dgram []byte) string {
+	return d.exchange(policy, nil, dgram, 0)
+}
+
+// SendPrimed delivers `prime` and then, with NOTHING in between, `dgram`, and reports what the listener
+// did with `dgram`.  The listener reads every datagram into one reused buffer, so this is how a datagram
+// that is shorter than its RADIUS Length field meets the tail the previous datagram left behind.  Whether
+// `prime` itself is answered is learnt first by sending it alone.
+func (d *Driver) SendPrimed(policy string, prime, dgram []byte) string {
+	first := d.Send(policy, prime)
+	primeActs := 0
+	switch {
+	case strings.HasPrefix(first, "act"):
+		primeActs = 1
+	case first != "drop":
+		return "prime-" + first
+	}
+	return d.exchange(policy, prime, dgram, primeActs)
+}
+
+// exchange sends [prime,] dgram and the sentinel back to back (UDP between one socket pair on loopback keeps
+// the order and the listener is one goroutine), collects everything answered before the sentinel's answer,
+// and attributes the first `primeActs` answers / handler invocations to the prime.
+func (d *Driver) exchange(policy string, prime, dgram []byte, primeActs int) string {
 	d.setPolicy(policy)
 	d.seq++
 	nonce := fmt.Sprintf("n%d", d.seq)
 	sentinel := Sign(40, byte(d.seq), append(Attr(1, []byte(sentinelUser)), Attr(44, []byte(nonce))...), d.secret)
+	if prime != nil {
+		if _, err := d.cli.Write(prime); err != nil {
+			return "senderr " + err.Error()
+		}
+	}
 	if _, err := d.cli.Write(dgram); err != nil {
 		return "senderr " + err.Error()
 	}
 	if _, err := d.cli.Write(sentinel); err != nil {
 		return "senderr " + err.Error()
 	}
-	var testReply []byte
+	var got [][]byte
 	panicked := ""
 	timeout := time.After(10 * time.Second)
 	for done := false; !done; {
@@ -202,7 +230,7 @@ func (d *Driver) Send(policy string, dgram []byte) string {
 			if d.isReplyTo(r, sentinel[4:20]) {
 				done = true
 			} else {
-				testReply = r
+				got = append(got, r)
 			}
 		case p := <-d.panics:
 			panicked = p
@@ -214,18 +242,37 @@ func (d *Driver) Send(policy string, dgram []byte) string {
 		return "panic " + panicked
 	}
 	d.mu.Lock()
-	inv := d.invoked
+	invs := append([]string(nil), d.invoked...)
 	d.mu.Unlock()
-	if inv == "" && testReply == nil {
+	if len(got) < primeActs || (policy != "def" && len(invs) < primeActs) {
+		return fmt.Sprintf("prime-lost replies=%d invocations=%d", len(got), len(invs))
+	}
+	got = got[primeActs:]
+	if policy != "def" {
+		invs = invs[primeActs:]
+	}
+	if len(got) > 1 || len(invs) > 1 {
+		return fmt.Sprintf("extra replies=%d invocations=%d", len(got), len(invs))
+	}
+	if len(invs) == 0 && len(got) == 0 {
 		return "drop"
 	}
-	if inv == "" {
+	var testReply []byte
+	if len(got) == 1 {
+		testReply = got[0]
+	}
+	inv := ""
+	if len(invs) == 1 {
+		inv = invs[0]
+	} else {
 		kind := "?"
-		switch testReply[0] {
-		case 41, 42:
-			kind = "dm"
-		case 44, 45:
-			kind = "coa"
+		if len(testReply) > 0 {
+			switch testReply[0] {
+			case 41, 42:
+				kind = "dm"
+			case 44, 45:
+				kind = "coa"
+			}
 		}
 		inv = kind + " -"
 	}
